@@ -824,3 +824,12 @@ package statsd
 //@ func (Aggregator).Reset
 //@   trusted
 //@   modifies everything
+
+// NewHttpForwarderHandlerV2FromViper (C15): every setting reaches the constructor parameter it is meant for -- in
+// particular the retry window and the flush interval, two adjacent time.Duration parameters.
+//@ func NewHttpForwarderHandlerV2FromViper
+//@   callsite NewHttpForwarderHandlerV2 requires transport == viperString(lastresult(newHTTPForwarderHandlerViperConfig, 0), "transport") && apiEndpoint == viperString(lastresult(newHTTPForwarderHandlerViperConfig, 0), "api-endpoint") && compressionTypeStr == viperString(lastresult(newHTTPForwarderHandlerViperConfig, 0), "compression-type")
+//@   callsite NewHttpForwarderHandlerV2 requires consolidatorSlots == viperInt(lastresult(newHTTPForwarderHandlerViperConfig, 0), "consolidator-slots") && maxRequests == viperInt(lastresult(newHTTPForwarderHandlerViperConfig, 0), "max-requests") && concurrentMerge == viperInt(lastresult(newHTTPForwarderHandlerViperConfig, 0), "concurrent-merge") && compressionLevel == viperInt(lastresult(newHTTPForwarderHandlerViperConfig, 0), "compression-level")
+//@   callsite NewHttpForwarderHandlerV2 requires compress == viperBool(lastresult(newHTTPForwarderHandlerViperConfig, 0), "compress")
+//@   callsite NewHttpForwarderHandlerV2 requires maxRequestElapsedTime == viperDuration(lastresult(newHTTPForwarderHandlerViperConfig, 0), "max-request-elapsed-time") && flushInterval == viperDuration(lastresult(newHTTPForwarderHandlerViperConfig, 0), "flush-interval")
+//@   modifies everything
